@@ -308,6 +308,16 @@ func (s *Scheme) runDKG(ctx context.Context, membership *membership, dkgProtocol
 			allowedList: universalIDsToUintMap(universalIds),
 		}
 
+		s.Logger.Debugf("Running keygen with parties %v", members)
+
+		// The protocol instance must be initialized before it becomes reachable from the message dispatcher:
+		// a peer may send its first protocol message the moment the handler below is registered.
+		if err := s.initializeDKG(dkgProtocolInstance, t, UIntsToUniversalIDs(members), parties, membership); err != nil {
+			s.Logger.Errorf("Failed initializing DKG: %v", err)
+			resultChan <- mpcResult{err: err}
+			return
+		}
+
 		s.lock.Lock()
 		_, rbcExisted := s.rbcInProgress[string(dkgTopicHash)]
 		s.rbcInProgress[string(dkgTopicHash)] = rbc.Receive
@@ -315,14 +325,6 @@ func (s *Scheme) runDKG(ctx context.Context, membership *membership, dkgProtocol
 
 		if rbcExisted {
 			panic("Programming error: we shouldn't have gotten to a situation with two concurrent signing with the same topic")
-		}
-
-		s.Logger.Debugf("Running keygen with parties %v", members)
-
-		if err := s.initializeDKG(dkgProtocolInstance, t, UIntsToUniversalIDs(members), parties, membership); err != nil {
-			s.Logger.Errorf("Failed initializing DKG: %v", err)
-			resultChan <- mpcResult{err: err}
-			return
 		}
 
 		// We use a synchronizer to synchronize on the hash of the parties, to ensure that all parties that participate
